@@ -13,10 +13,12 @@ pub fn json_u64() {
     let n = nd::u64();
     let v = JValue::Number(Number::from(n));
     oblige!(kind_is(v.kind(), ValueKind::Integer), "C13:kind_without_consuming_equals_kind_of_the_consumed_view");
-    match v.into_value() {
-        Value::Integer(x) => { oblige!(x == n, "C13:numbers_classified_as_serde_json_holds_them"); }
+    let iv = v.into_value();
+    match &iv {
+        Value::Integer(x) => { oblige!(*x == n, "C13:numbers_classified_as_serde_json_holds_them"); }
         _ => { oblige!(false, "C13:numbers_classified_as_serde_json_holds_them"); }
     }
+    std::mem::forget(iv);
     // and back: From<Value> and Deserr for serde_json::Value
     let back = JValue::from(Value::<JValue>::Integer(n));
     oblige!(back.as_u64() == Some(n), "C13:from_value_gives_back_the_same_document");
@@ -35,11 +37,15 @@ pub fn json_i64() {
     let want_neg = i < 0;
     reach!(want_neg, "reach:negative"); reach!(!want_neg, "reach:non_negative");
     oblige!(kind_is(v.kind(), if want_neg { ValueKind::NegativeInteger } else { ValueKind::Integer }), "C13:kind_without_consuming_equals_kind_of_the_consumed_view");
-    match v.into_value() {
-        Value::Integer(x) => { oblige!(!want_neg && x == i as u64, "C13:numbers_classified_as_serde_json_holds_them"); }
-        Value::NegativeInteger(x) => { oblige!(want_neg && x == i, "C13:numbers_classified_as_serde_json_holds_them"); }
+    // (the view is inspected by reference and then forgotten: dropping a Value<serde_json::Value> whose variant is symbolic
+    // would send CBMC through serde_json's recursive drop glue)
+    let iv = v.into_value();
+    match &iv {
+        Value::Integer(x) => { oblige!(!want_neg && *x == i as u64, "C13:numbers_classified_as_serde_json_holds_them"); }
+        Value::NegativeInteger(x) => { oblige!(want_neg && *x == i, "C13:numbers_classified_as_serde_json_holds_them"); }
         _ => { oblige!(false, "C13:numbers_classified_as_serde_json_holds_them"); }
     }
+    std::mem::forget(iv);
     let back = JValue::from(Value::<JValue>::NegativeInteger(i));
     oblige!(back.as_i64() == Some(i), "C13:from_value_gives_back_the_same_document");
     std::mem::forget(back);
@@ -60,10 +66,12 @@ pub fn json_f64() {
             oblige!(f.is_finite(), "C13:numbers_classified_as_serde_json_holds_them");
             let v = JValue::Number(num);
             oblige!(kind_is(v.kind(), ValueKind::Float), "C13:kind_without_consuming_equals_kind_of_the_consumed_view");
-            match v.into_value() {
+            let iv = v.into_value();
+            match &iv {
                 Value::Float(x) => { oblige!(x.to_bits() == f.to_bits(), "C13:numbers_classified_as_serde_json_holds_them"); }
                 _ => { oblige!(false, "C13:numbers_classified_as_serde_json_holds_them"); }
             }
+            std::mem::forget(iv);
         }
         None => { oblige!(!f.is_finite(), "C13:numbers_classified_as_serde_json_holds_them"); }
     }
